@@ -127,6 +127,8 @@ export function makeCanon(state, protocol) {
     if (hints) {
       out.pf = canon(v.pf);
       out.dp = canon(v.dp);
+      // raw own keys of the props object (before class/style normalisation)
+      out.pk = v.props && typeof v.props === 'object' ? Object.keys(v.props).sort() : [];
     }
     if (protocol.factory) out.factory = v.factory;
     return out;
